@@ -12,7 +12,7 @@ EXPLAIN = "explain"
 PREFIXES = ["", "a", "ab", "b", "a:", "-", "abc", "b:"]
 KEYCH = ["a", "b", "c", ":", "-"]
 RULE = ("(route) sets of 1-4 prefixes from {'', a, ab, b, a:, -, abc, b:} registered in random order (re-registration included) x keys of "
-        "length 0-4 over {a,b,c,:,-} x a command; observed: which Memory instance received it; (many) get_many/set_many/delete_many over keys "
+        "length 0-4 over {a,b,c,:,-} x a command; observed: which Memory instance received it; (many) get_many/set_many/delete_many (some requested keys holding a bit field instead of a value) over keys "
         "spanning backends incl. duplicates; (disabled) every facade command with the cache / a prefix / a command disabled by disable(), "
         "disabling() or setup(enable=False): backend touched? raised? result shape; (decor) execution counters of cached functions under "
         "disabling, called one after the other and overlapping in time; (ctl) enable/disable/query sequences across parent and child asyncio tasks. non-trivial: >= 2 registered prefixes match the "
@@ -54,7 +54,9 @@ def gen_cases(rng, tier):
             continue
         stored = {k: rng.choice([1, 2, "x", "y"]) for k in pool if rng.random() < 0.7}
         ks = [rng.choice(pool) for _ in range(rng.randint(1, 6))]
-        cases.append({"kind": "many", "regs": regs, "stored": stored, "keys": ks, "via": rng.choice(["get_many", "get_many", "set_many", "delete_many"])})
+        via = rng.choice(["get_many", "get_many", "set_many", "delete_many"])
+        bits = [k for k in sorted(set(ks)) if rng.random() < 0.25] if via == "get_many" and rng.random() < 0.4 else []     # keys that hold a bit field, not a value
+        cases.append({"kind": "many", "regs": regs, "stored": stored, "keys": ks, "via": via, "bits": bits})
         cases.append({"kind": "manyw", "regs": regs, "stored": stored, "dels": [rng.choice(pool) for _ in range(rng.randint(0, 5))],
                       "sets": sorted({rng.choice(pool) for _ in range(rng.randint(0, 4))})})
     for cmd in CMDS:
@@ -200,13 +202,17 @@ def run_impl(case):
                 route = {}
                 for k, v in case["stored"].items():
                     await cache.set(k, v)
+                for k in case.get("bits", []):      # a bit field (bloom filter data) under a requested key: not a value, the answer stays one per key
+                    await cache.delete(k)
+                    await cache.incr_bits(k, 1, 3)
                 del log[:]
                 if case["via"] == "set_many":
                     await cache.set_many({k: "new:" + k for k in case["keys"]})
                 elif case["via"] == "delete_many":
                     await cache.delete_many(*case["keys"])
                 out = await cache.get_many(*case["keys"], default="<default>")
-                stores = [[i, [[k, b.store[k][1]] for k in b.store]] for i, b in enumerate(backs)]
+                from cashews.utils import Bitarray
+                stores = [[i, [[k, b.store[k][1]] for k in b.store if not isinstance(b.store[k][1], Bitarray)]] for i, b in enumerate(backs)]
                 return {"out": list(out), "stores": stores}
             if kind == "disabled":
                 how, cmd = case["how"], case["cmd"]
